@@ -59,6 +59,7 @@ type runCfg struct {
 	compress  bool
 	window    int
 	auto      bool
+	clients   int // rpc clients (each with its own connections) that share the server
 	g, n      int
 	gen       genCfg
 }
@@ -79,6 +80,7 @@ func genRunCfg(r *hx.Rand, thorough bool) runCfg {
 	c.connChans = []int{1, 2, 3, 5, 8, 16, 128}[r.Intn(7)]
 	c.compress = r.Intn(2) == 0
 	c.auto = r.Intn(4) == 0
+	c.clients = []int{1, 1, 2, 3, 4}[r.Intn(5)]
 	if r.Intn(4) == 0 {
 		c.window = []int{512, 2048, 8192, 65536}[r.Intn(4)]
 		c.gen.smallWin = true
@@ -116,24 +118,8 @@ func (c *runCfg) options() rpc.Options {
 	if c.window > 0 {
 		o.ChannelWindowSize = units.Bytes(c.window)
 	}
+	o.ClientDialTimeout = 10 * time.Second // a loaded machine must not look like a lost server
 	return o
-}
-
-func waitFor(d time.Duration, cond func() bool) bool {
-	deadline := time.Now().Add(d)
-	for i := 0; ; i++ {
-		if cond() {
-			return true
-		}
-		if time.Now().After(deadline) {
-			return false
-		}
-		if i < 50 {
-			time.Sleep(100 * time.Microsecond)
-		} else {
-			time.Sleep(time.Millisecond)
-		}
-	}
 }
 
 func panicsOf(lg *caplog.Logger, who string) []string {
@@ -159,7 +145,7 @@ func runOne(s *scenario, idx int, derived uint64) (line string, viol []string, d
 		plans[i] = genPlan(r, uint64(idx+1)<<32|uint64(i+1), &cfg.gen)
 	}
 	w := newWorld(plans)
-	w.callTimeout = 8 * time.Second
+	w.timeouts = s.timeouts()
 
 	// server
 	slg, clg := caplog.New(), caplog.New()
@@ -198,8 +184,9 @@ func runOne(s *scenario, idx int, derived uint64) (line string, viol []string, d
 	if cfg.auto {
 		mode = rpc.ClientMode_AutoConnect
 	}
-	copts := cfg.options()
-	w.cl = rpc.NewClient(addr, mode, clg, copts)
+	for i := 0; i < cfg.clients; i++ {
+		w.cls = append(w.cls, rpc.NewClient(addr, mode, clg, cfg.options()))
+	}
 
 	mpx.VerifSetYield(derived, cfg.yieldProb, cfg.yieldNs)
 	yields0 := mpx.VerifYieldCount()
@@ -237,10 +224,16 @@ func runOne(s *scenario, idx int, derived uint64) (line string, viol []string, d
 				switch cfg.mode {
 				case modeKillCli:
 					ctx := async.TimeoutContext(2 * time.Second)
-					if conn, st := w.cl.Unwrap().Conn(ctx); st.OK() {
-						conn.Close()
-						injected.Add(1)
+					for i, cl := range w.cls {
+						if pick&1 == 0 && i != int(pick>>1)%len(w.cls) {
+							continue // only one of the clients
+						}
+						if conn, st := cl.Unwrap().Conn(ctx); st.OK() {
+							conn.Close()
+							injected.Add(1)
+						}
 					}
+					pick = pick*6364136223846793005 + 1442695040888963407
 				case modeProxyKill:
 					live := px.live()
 					if len(live) == 0 {
@@ -263,7 +256,7 @@ func runOne(s *scenario, idx int, derived uint64) (line string, viol []string, d
 					srvStopped = true
 					injected.Add(1)
 				case modeCliClose:
-					w.cl.Close()
+					w.cls[int(pick>>1)%len(w.cls)].Close()
 					injected.Add(1)
 				}
 			}
@@ -291,7 +284,7 @@ func runOne(s *scenario, idx int, derived uint64) (line string, viol []string, d
 	var hang []string
 	select {
 	case <-trafficDone:
-	case <-time.After(w.callTimeout*2 + 10*time.Second):
+	case <-time.After(w.timeouts.hard + 4*time.Second):
 		hang = append(hang, "traffic-hung")
 	}
 	close(stopInj)
@@ -323,22 +316,24 @@ func runOne(s *scenario, idx int, derived uint64) (line string, viol []string, d
 		return true
 	}
 	if len(hang) == 0 {
-		waitFor(4*time.Second, settled)
+		waitQuiet(2*time.Second, time.Second, 8*time.Second, settled)
 		if cfg.fault {
 			// requests may still be on their way
 			time.Sleep(20 * time.Millisecond)
-			waitFor(4*time.Second, settled)
+			waitQuiet(2*time.Second, time.Second, 8*time.Second, settled)
 		}
 	}
 
 	// shutdown
 	mpx.VerifSetYield(0, 0, 0)
 	yields := mpx.VerifYieldCount() - yields0
-	w.cl.Close()
+	for _, cl := range w.cls {
+		cl.Close()
+	}
 	if !srvStopped {
 		select {
 		case <-srv.Stop():
-		case <-time.After(5 * time.Second):
+		case <-time.After(3 * time.Second):
 			hang = append(hang, "server-stop-hung")
 		}
 	}
@@ -381,9 +376,9 @@ func runOne(s *scenario, idx int, derived uint64) (line string, viol []string, d
 	for k, n := range kinds {
 		ks = append(ks, fmt.Sprintf("%s:%d", kindShort[k], n))
 	}
-	line = fmt.Sprintf("mode=%s yield=%d/%dus mc=%d cch=%d comp=%v win=%d auto=%v g=%d n=%d kinds=%s conns=%d inj=%d inv=%d ok=%d app=%d transport=%d noresp=%d srvFalseEnd=%d panicMsgLost=%d yields=%d ms=%d",
+	line = fmt.Sprintf("mode=%s yield=%d/%dus mc=%d cch=%d comp=%v win=%d auto=%v cl=%d g=%d n=%d kinds=%s conns=%d inj=%d inv=%d ok=%d app=%d transport=%d noresp=%d srvFalseEnd=%d panicMsgLost=%d yields=%d ms=%d",
 		cfg.mode, cfg.yieldProb, cfg.yieldNs/time.Microsecond, cfg.maxConns, cfg.connChans, cfg.compress, cfg.window, cfg.auto,
-		cfg.g, cfg.n, strings.Join(ks, ","), nconns, int(injected.Load())+cuts, stats.inv, stats.ok, stats.app, stats.transport,
+		cfg.clients, cfg.g, cfg.n, strings.Join(ks, ","), nconns, int(injected.Load())+cuts, stats.inv, stats.ok, stats.app, stats.transport,
 		stats.noresp, stats.falseEnd, stats.panicMsgLost, yields, time.Since(began).Milliseconds())
 	return line, viol, detail
 }
